@@ -569,7 +569,16 @@ def mode_robust(req_cases):
             out.append(rec)
             continue
         call("loads(None)", lambda: sio.loads(data, trusted=None))
-        call("loads(reported)", lambda: sio.loads(data, trusted=list(gut)))
+        loaded = []
+        call("loads(reported)", lambda: loaded.append(sio.loads(data, trusted=list(gut))))
+        if loaded:
+            # what load handed back must be a usable object: looking at it must not take the interpreter down either
+            def use():
+                from absval import fingerprint
+                repr(loaded[0])[:10]
+                fingerprint(loaded[0])
+            call("use(loaded)", use)
+            del loaded[:]
         buf = io.StringIO()
 
         def do_vis():
